@@ -121,6 +121,7 @@ def gen_spec(rng, fmt=None, max_elements=5, max_shells=8, max_l=7, max_prims=10,
         "blanks": rng.random() < 0.4,
         "trail": rng.choice(["END", "", "nl", "none"]),
         "noise_seed": rng.randrange(1 << 30),
+        "inner": rng.choice([0.0, 0.0, 0.15, 0.4]),  # comment / blank lines *inside* shell blocks
     }
     return {"fmt": fmt, "lead": lead_lines, "elements": elements, "layout": layout}
 
@@ -156,6 +157,22 @@ def render(spec):
     hsep = " " * lay["hdr_sep"]
     lines = list(spec["lead"])
 
+    p_inner = lay.get("inner", 0.0)
+
+    def inner():
+        if p_inner and nrng.random() < p_inner:
+            return [nrng.choice([cchar + " " + _comment(nrng), "", cchar])]
+        return []
+
+    def rows(sh, cols):
+        out = []
+        K = len(sh["exps"])
+        out.extend(inner())
+        for k in range(K):
+            out.append(ind + sep.join([sh["exps"][k]] + [col[k] for col in cols]))
+            out.extend(inner())
+        return out
+
     def noise():
         out = []
         if lay["comments"] and nrng.random() < 0.4:
@@ -178,18 +195,15 @@ def render(spec):
                 if not (first and not spec["lead"]):
                     lines.extend(noise())
                 lines.append(el["sym"] + hsep + letters)
-                for k in range(K):
-                    lines.append(ind + sep.join([sh["exps"][k]] + [col[k] for col in sh["cols"]]))
+                lines.extend(rows(sh, sh["cols"]))
             else:
                 if len(sh["l"]) == 2:  # SP: one block, two coefficient columns
                     lines.append(letters + hsep + str(K) + hsep + "1.00")
-                    for k in range(K):
-                        lines.append(ind + sep.join([sh["exps"][k]] + [col[k] for col in sh["cols"]]))
+                    lines.extend(rows(sh, sh["cols"]))
                 else:  # M columns are written as M consecutive blocks with identical exponents
                     for col in sh["cols"]:
                         lines.append(letters + hsep + str(K) + hsep + "1.00")
-                        for k in range(K):
-                            lines.append(ind + sep.join([sh["exps"][k], col[k]]))
+                        lines.extend(rows(sh, [col]))
             first = False
     if fmt == "gbs":
         lines.append("****")
